@@ -1120,3 +1120,133 @@ func namedCellLit(fd *ast.FuncDecl) *ast.FuncLit {
 	namedCellLits[fd] = l
 	return l
 }
+
+// ---------------------------------------------------------------------------
+// R14.9 comparison cells convert no float to an integer without a range check
+//
+// A float that is larger than every int64 (1e19, +Inf) or is NaN has no
+// integer value; Go leaves the result of the conversion to the hardware (amd64
+// yields MinInt64 for all of them). A cell of the = or < matrix that compares
+// "exactly" by converting the float operand to an integer therefore orders
+// +Inf below every int, while the float/float cell orders it above: < is no
+// longer asymmetric and transitive across the number types. The conversion is
+// sound only under a test that bounds the operand from both sides.
+
+func ruleR149(c *Ctx) {
+	regs := c.registrations()
+	n := 0
+	seen := map[ast.Node]bool{}
+	for _, r := range regs {
+		if (r.owner != "Equal" && r.owner != "Less") || !strings.HasSuffix(r.pkg.PkgPath, "/value") || r.lit == nil {
+			continue
+		}
+		pkg := r.pkg
+		info := pkg.TypesInfo
+		// the cell and the functions of the package it calls (two levels)
+		bodies := []ast.Node{r.lit}
+		for depth := 0; depth < 2; depth++ {
+			var next []ast.Node
+			for _, b := range bodies {
+				ast.Inspect(b, func(x ast.Node) bool {
+					if call, ok := x.(*ast.CallExpr); ok {
+						if cal := Callee(info, call); cal != nil && cal.Pkg() == pkg.Types {
+							if fd := findFuncDecl(pkg, cal); fd != nil && fd.Body != nil {
+								dup := false
+								for _, o := range append(bodies, next...) {
+									if o == ast.Node(fd) {
+										dup = true
+									}
+								}
+								if !dup {
+									next = append(next, fd)
+								}
+							}
+						}
+					}
+					return true
+				})
+			}
+			bodies = append(bodies, next...)
+		}
+		for _, b := range bodies {
+			if seen[b] {
+				continue
+			}
+			seen[b] = true
+			n++
+			var tids []string
+			for _, t := range r.types {
+				tids = append(tids, nodeStr(c.Fset, t))
+			}
+			where := fmt.Sprintf("value.%s[%s]", r.owner, strings.Join(tids, ","))
+			if fd, ok := b.(*ast.FuncDecl); ok {
+				where = declName(pkg, fd)
+			}
+			k := 0
+			clean := true
+			ast.Inspect(b, func(x ast.Node) bool {
+				call, ok := x.(*ast.CallExpr)
+				if !ok || len(call.Args) != 1 {
+					return true
+				}
+				tv, ok := info.Types[call.Fun]
+				if !ok || !tv.IsType() {
+					return true
+				}
+				to, ok1 := tv.Type.Underlying().(*types.Basic)
+				from, ok2 := info.TypeOf(call.Args[0]).Underlying().(*types.Basic)
+				if !ok1 || !ok2 || to.Info()&types.IsInteger == 0 || from.Info()&types.IsFloat == 0 {
+					return true
+				}
+				if av := info.Types[call.Args[0]]; av.Value != nil {
+					return true // a constant: checked by the compiler
+				}
+				k++
+				key := fmt.Sprintf("%s#float-to-int[%d]", where, k)
+				operand := nodeStr(c.Fset, ast.Unparen(call.Args[0]))
+				lower, upper := false, false
+				for _, gd := range c.GuardsDeep(call) {
+					if gd.Synth {
+						continue
+					}
+					cond := ast.Unparen(gd.Cond)
+					if be, ok := cond.(*ast.BinaryExpr); ok {
+						x, y, op := nodeStr(c.Fset, ast.Unparen(be.X)), nodeStr(c.Fset, ast.Unparen(be.Y)), be.Op
+						mentionsAbs := strings.Contains(x, "math.Abs("+operand) || strings.Contains(y, "math.Abs("+operand)
+						if !gd.Val {
+							op = map[token.Token]token.Token{token.LSS: token.GEQ, token.LEQ: token.GTR, token.GTR: token.LEQ, token.GEQ: token.LSS}[op]
+						}
+						if y == operand || strings.Contains(y, "math.Abs("+operand) {
+							x, y = y, x
+							op = map[token.Token]token.Token{token.LSS: token.GTR, token.LEQ: token.GEQ, token.GTR: token.LSS, token.GEQ: token.LEQ}[op]
+						}
+						if x == operand || mentionsAbs {
+							switch op {
+							case token.LSS, token.LEQ:
+								upper = true
+								if mentionsAbs {
+									lower = true
+								}
+							case token.GTR, token.GEQ:
+								lower = true
+							}
+						}
+					}
+				}
+				if lower && upper {
+					c.OK(key, call.Pos(), "the conversion is reached only with the operand bounded from both sides")
+				} else {
+					clean = false
+					c.Violation(key, call.Pos(), "%s converts the float %s to an integer without a test that bounds it from both sides: for +Inf, NaN and every float of magnitude >= 2^63 the result is not the value of the float (MinInt64 on amd64), so a mixed comparison orders +Inf and 1e19 below every int while the float/float cell orders them above - < is not asymmetric and transitive across ints and floats, and min/max/order disagree with it", nodeStr(c.Fset, call), operand)
+				}
+				return true
+			})
+			if k == 0 && clean {
+				c.OK(fmt.Sprintf("%s#no-float-to-int", where), b.Pos(), "no conversion of a float to an integer")
+			}
+		}
+	}
+	if n < 8 {
+		c.Undecided("value#comparison-cells", token.NoPos, "only %d comparison cells found", n)
+	}
+}
